@@ -416,6 +416,24 @@ class SQLDataHolder(DataHolder):
             session.execute(stmt_2)
             session.commit()
 
+    @staticmethod
+    def _remove_node_associations_of_removed_nodes(session: Session) -> None:
+        """Method to remove node associations whose child node is no longer
+        in the nodes table.
+
+        :param session: SQLAlchemy Session object.
+        :type session: :class: `sqlalchemy.orm.Session`
+        """
+        session.execute(
+            sa.delete(NODE_ASSOCIATION).where(
+                not_(
+                    NODE_ASSOCIATION.c.child_id.in_(
+                        sa.select(NodeModel.event_id)
+                    )
+                )
+            )
+        )
+
     def remove_inconsistent_jobs(self) -> None:
         """Method to remove spans associated with job ids that contain
         disconnected spans.
@@ -447,6 +465,7 @@ class SQLDataHolder(DataHolder):
             )
             stmt_3 = sa.delete(NodeModel).where(NodeModel.job_id.in_(stmt_2))
             res = session.execute(stmt_3)
+            self._remove_node_associations_of_removed_nodes(session)
             session.commit()
             logging.getLogger().info(
                 f"Number of nodes with inconsistent jobs: {res.rowcount}"
@@ -477,6 +496,7 @@ class SQLDataHolder(DataHolder):
                 not_(NodeModel.job_id.in_(stmt))
             )
             res = session.execute(stmt_2)
+            self._remove_node_associations_of_removed_nodes(session)
             session.commit()
             logging.getLogger().info(
                 f"Number of events outside of time window: {res.rowcount}"
